@@ -293,4 +293,28 @@ CHECKS = {
         "assumptions": [],
         "selftest": False,
     },
+    "C03": {
+        "level": "exploration",
+        "level_text": "seeded bidirectional transfers (0 B - 2 MB, write sizes 1 B - 64 KiB, half-close by each writer) over real QUIC streams on "
+                      "1-4 hop paths whose datagram links lose (<= 5 %), duplicate, delay and reorder every message by a hash of (seed, link, "
+                      "direction, n), optionally with the first link of the active path cut while a more expensive path exists; the same "
+                      "transfers through the control service's connect bridge and through BridgeConns with a simulated TCP-side pipe; "
+                      "bytes read must equal bytes written in order, end-of-stream only after all data, completion within 400 s after "
+                      "faults stop",
+        "level_note": "quic-go runs with every clock read 1 ns late (sim/overlay/README) so that its strict deadline comparisons work on a "
+                      "clock that lands exactly on timer deadlines; QUIC packet counts are not bit-reproducible; one known finding (F15)",
+        "quick": {"runs": 320, "per_proc": 20},
+        "thorough": {"runs": 12000, "per_proc": 40},
+        "hang_is_violation": True,
+        "proc_timeout": 600,
+        "rule": "one run = one transfer pair; distinct_nontrivial counts distinct (hops, lossy links, via, size buckets, cut) classes",
+        "real": MESH_REAL + ["quic-go fork (clock reads skewed by 1 ns)", "pkg/netceptor conn.go Listen/Dial/Conn", "pkg/utils BridgeConns",
+                             "pkg/controlsvc connect command"],
+        "stub": MESH_STUB + ["net.Listen side of the TCP proxy services (a simulated pipe feeds BridgeConns)"],
+        "assumptions": ["dialers redial links whose session ended (700 ms poll)", "establishing a connection may fail under loss and is retried; "
+                        "the property is about established streams",
+                        "through a bridge to an ordinary socket only one half-close can be expressed, so the responder answers after the "
+                        "request's end-of-stream"],
+        "selftest": False,
+    },
 }
